@@ -39,6 +39,8 @@ fn main() {
             }
         }
     }
+    // library code under test prints to stdout: keep the verdict stream clean
+    fvh::out::capture_stdout();
     let seed: u64 = std::env::var("VERIF_SEED").ok().and_then(|s| s.parse::<i64>().ok()).map(|v| v as u64).unwrap_or(1);
     let code = fvh::props::run(&id, tier, seed, replay);
     std::process::exit(code);
